@@ -161,6 +161,39 @@ class PE:
         # field write into a tracked local: forget the local (sound: Unknown)
         env.pop(l, None)
 
+    def _forget(self, env, l, proj, depth=0):
+        """Forget what is known about place l.proj (something may have written through a &mut)."""
+        v = env.get(l)
+        if v is None:
+            return
+        if not proj:
+            env.pop(l, None)
+            return
+        if proj[0] == "deref":
+            if v[0] == "ref" and depth < 8:
+                self._forget(env, v[1], list(v[2]) + proj[1:], depth + 1)
+            return
+
+        def drop(val, pr):
+            if val is None or not pr:
+                return UNK
+            p0 = pr[0]
+            if p0.startswith("dc"):
+                return drop(val, pr[1:])
+            if p0.startswith("f") and p0[1:].isdigit() and val[0] == "adt":
+                k = int(p0[1:])
+                if k < len(val[2]):
+                    fields = list(val[2])
+                    fields[k] = drop(fields[k], pr[1:])
+                    return ("adt", val[1], tuple(fields))
+            return UNK
+
+        nv = drop(v, proj)
+        if nv is None:
+            env.pop(l, None)
+        else:
+            env[l] = nv
+
     def operand(self, env, o):
         k = o["k"]
         if k in ("copy", "move"):
@@ -553,7 +586,7 @@ class PE:
                         if a["k"] in ("copy", "move") and a["place"].get("ty", "").startswith("&mut"):
                             av = argvals[ai]
                             if av is not None and av[0] == "ref":
-                                env.pop(av[1], None)
+                                self._forget(env, av[1], list(av[2]))
                     self._write(env, c.dest, val)
                     if c.target is None:
                         res.panics.add(bb)
